@@ -8,6 +8,7 @@ import (
 	"strconv"
 	"strings"
 	"testing"
+	"time"
 
 	"github.com/aundis/formula"
 	"github.com/ericlagergren/decimal"
@@ -377,6 +378,123 @@ func init() {
 			return "bad replay: " + err.Error()
 		}
 		m, _ := checkTruth(c)
+		return m
+	})
+}
+
+// checkComputed: whatever the expression e evaluates to, the six ways of asking
+// for its truthiness agree with each other and with the table of the statement.
+func checkComputed(e string) (msg string, skipped bool) {
+	data := spec.BuildMap(truthSpec(), &spec.Recorder{})
+	v := obs.EvalText(e, data)
+	if v.Panic != nil {
+		return fmt.Sprintf("%s -> %s", e, v), false
+	}
+	if v.Err != nil {
+		return "", true // not a value: nothing to ask
+	}
+	out := obs.EvalText("[!!("+e+"), !("+e+"), ("+e+") ? 'T' : 'F', [("+e+") && 'rhs'], [("+e+") || 'rhs'], [("+e+")]]", data)
+	arr, ok := out.Val.([]interface{})
+	if out.Panic != nil || out.Err != nil || !ok || len(arr) != 6 {
+		if _, isNumOrBoolOrNull := v.Val.(float64); out.Err != nil && !isNumOrBoolOrNull && v.Val != nil {
+			if _, isBool := v.Val.(bool); !isBool {
+				return "", true // `!x` is only promised for booleans, numbers and null
+			}
+		}
+		return fmt.Sprintf("%s evaluates to %s, but [!!e, !e, e ? 'T' : 'F', [e && 'rhs'], [e || 'rhs'], [e]] -> %s", e, v, out), false
+	}
+	// the value itself, as it travels inside the formula (seen as the element of [e]; a top-level result would
+	// already have been rounded to float64)
+	var want, known bool
+	if el, ok := arr[5].([]interface{}); ok && len(el) == 1 {
+		switch x := el[0].(type) {
+		case nil:
+			want, known = false, true
+		case bool:
+			want, known = x, true
+		case string:
+			want, known = x != "", true
+		case *decimal.Big:
+			want, known = x != nil && !x.IsNaN(0) && x.Sign() != 0, x != nil
+		case float64:
+			want, known = !(x == 0 || x != x), true
+		case []interface{}, map[string]interface{}, time.Time:
+			want, known = true, true
+		}
+	}
+	t, isBool := arr[0].(bool)
+	if !isBool {
+		return fmt.Sprintf("!!(%s) = %s, not a boolean", e, obs.Show(arr[0])), false
+	}
+	if known && t != want {
+		return fmt.Sprintf("[%s] evaluates to %s, so the value is %s, but !!(%s) = %v", e, obs.Show(arr[5]), map[bool]string{true: "truthy", false: "falsy"}[want], e, t), false
+	}
+	if n, ok := arr[1].(bool); !ok || n != !t {
+		return fmt.Sprintf("!!(%s) = %v but !(%s) = %s", e, t, e, obs.Show(arr[1])), false
+	}
+	if c, _ := arr[2].(string); c != map[bool]string{true: "T", false: "F"}[t] {
+		return fmt.Sprintf("!!(%s) = %v but (%s) ? 'T' : 'F' = %s", e, t, e, obs.Show(arr[2])), false
+	}
+	self := obs.Show(arr[5])
+	and, or := obs.Show(arr[3]), obs.Show(arr[4])
+	wantAnd, wantOr := self, `["rhs"]`
+	if t {
+		wantAnd, wantOr = `["rhs"]`, self
+	}
+	if and != wantAnd && and != strings.ReplaceAll(wantAnd, `"rhs"`, `rhs`) {
+		return fmt.Sprintf("!!(%s) = %v but [(%s) && 'rhs'] = %s (the expression itself: %s)", e, t, e, and, self), false
+	}
+	if or != wantOr && or != strings.ReplaceAll(wantOr, `"rhs"`, `rhs`) {
+		return fmt.Sprintf("!!(%s) = %v but [(%s) || 'rhs'] = %s (the expression itself: %s)", e, t, e, or, self), false
+	}
+	return "", false
+}
+
+// TestC06Computed: conditions that are computed inside the formula.
+func TestC06Computed(t *testing.T) {
+	operands := []string{"'abc'", "''", "'0'", "'12'", "' '", "m", "[1]", "[]", "null", "true", "false", "t", "0", "1.50", "fnan", "finf", "izero", "es", "nn", "np", "st", "m.a", "m.zz", "undefinedName"}
+	var exprs []string
+	for _, a := range operands {
+		for _, op := range []string{"+", "-", "~", "typeof "} {
+			exprs = append(exprs, op+a, "("+op+a+")", op+"("+op+a+")")
+		}
+		for _, b := range []string{"1", "0", "''", "'x'", "null"} {
+			for _, op := range []string{"+", "-", "*", "/", "%", "&", "|", "^", "??", "&&", "||", "==", "<"} {
+				exprs = append(exprs, a+" "+op+" "+b, b+" "+op+" "+a)
+			}
+		}
+		exprs = append(exprs, "toFloat("+a+")", "toInt("+a+")", "toString("+a+")", "len("+a+")", "abs("+a+")", "finite("+a+")", "trim("+a+")", "["+a+"][0]", "($c = "+a+", $c)", "fn0() ? "+a+" : 0")
+	}
+	exprs = append(exprs, "0 / 0", "1 / 0", "0 - 1 / 0", "0 * -1", "1 - 1", "0.1 + 0.2 - 0.3", "'' + ''", "left('abc', 0)", "sqrt(0 - 1)", "ln(0)", "exp(1000)", "1e400", "1e-400", "round(0.4)", "round(0 - 0.4)", "floor(0.5)", "max(0)", "min(0, 1)", "find('a', 'b') + 1", "date(2024, 1, 1)", "now()", "join([], ',')", "lower('')", "mid('abc', 1, 1)")
+	run := h.Begin("C06", "computed", fmt.Sprintf("bounded-exhaustive: %d conditions computed inside the formula (every unary operator, 13 binary operators and 10 builtins applied to %d operand values of every kind, plus divisions by zero, overflowing literals, empty results of string builtins, ...); whatever value e the condition yields (cases whose evaluation is an error are skipped and counted), !!e, !e, e ? 'T' : 'F', e && 'rhs' and e || 'rhs' must agree with each other, and with the statement's table when e leaves as null, a boolean, a string or a number (NaN and zero falsy); every case non-trivial", len(exprs), len(operands)))
+	defer run.End(t)
+	for i, e := range exprs {
+		if !h.Mine(int64(i)) || run.NViolations() >= 3 {
+			continue
+		}
+		msg, skipped := checkComputed(e)
+		if skipped {
+			run.Class("error-or-unspecified-skipped")
+			continue
+		}
+		run.CountKey(e, true, "computed")
+		if i%97 == 0 {
+			run.Sample("computed", e)
+		}
+		if msg != "" {
+			run.Fail("c06-computed", e, msg)
+		}
+	}
+	run.Exhaustive()
+}
+
+func init() {
+	h.RegisterReplay("c06-computed", func(raw json.RawMessage) string {
+		e, err := h.Decode[string](raw)
+		if err != nil {
+			return "bad replay: " + err.Error()
+		}
+		m, _ := checkComputed(e)
 		return m
 	})
 }
